@@ -79,6 +79,7 @@ Qed.
 Section Hier.
 Variable h : hier.
 Hypothesis Hwf : wf_hier h = true.
+Variable fx : bool.
 
 Lemma wf_c c : (c < length h)%nat -> wf_cls h c (getc h c) = true.
 Proof. intros H. apply (wf_from_nth h h 0 c Hwf H). Qed.
@@ -164,7 +165,8 @@ Record Base (w : world) : Prop := {
 Definition CacheOK (w : world) : Prop := forall k,
   fst (cache_find (w_cache w) k) < w_next w /\ snd (cache_find (w_cache w) k) < w_next w /\
   (forall c, (c < length h)%nat -> tp_ver w c = fst (cache_find (w_cache w) k) ->
-     type_lookup h (cd_w w) c = Some (Wrap k) /\ in_mro h k c = true) /\
+     type_lookup h (cd_w w) c = Some (Wrap k) /\ in_mro h k c = true /\
+     (fx = true -> static_bases h c = true)) /\
   (forall oi o e, nth_error (w_objs w) oi = Some o ->
      os_dict o = Some (e, snd (cache_find (w_cache w) k)) -> e = None).
 
@@ -196,7 +198,7 @@ Lemma cs_get_upd_same w c x : (c < length (w_cls w))%nat -> nth c (upd (w_cls w)
 Proof. apply nth_upd_same. Qed.
 
 Lemma base_set_class w c e : Base w -> (c < length h)%nat -> is_py (getc h c) = true ->
-  Base (set_class false h w c e).
+  Base (set_class w c e).
 Proof.
   intros B Hc Hp. pose proof (b_len _ B) as Hl. unfold set_class.
   assert (G : forall c', cs_get (mkw (upd (w_cls w) c (mkcs e (w_next w))) (w_objs w) (w_cache w) (w_next w + 1)) c'
@@ -230,10 +232,11 @@ Proof.
   destruct Hin as [->|Hin]; [congruence|]. apply existsb_eqb_In in Hin. rewrite Hin in L. discriminate.
 Qed.
 
-Lemma cache_set_class w c e : Base w -> CacheOK w -> (c < length h)%nat -> is_leaf h c = true ->
-  CacheOK (set_class false h w c e).
+Lemma cache_set_class w c e : Base w -> CacheOK w -> (c < length h)%nat -> is_py (getc h c) = true ->
+  is_leaf h c = true \/ fx = true ->
+  CacheOK (set_class w c e).
 Proof.
-  intros B C Hc L k. pose proof (b_len _ B) as Hl. destruct (C k) as (C1 & C2 & C3 & C4).
+  intros B C Hc Hpy L k. pose proof (b_len _ B) as Hl. destruct (C k) as (C1 & C2 & C3 & C4).
   unfold set_class. cbn [w_cls w_objs w_cache w_next].
   split; [lia|]. split; [lia|]. split.
   - intros c' Hc' E.
@@ -241,10 +244,13 @@ Proof.
     { intros ->. unfold tp_ver, cs_get in E. cbn [w_cls] in E. rewrite nth_upd_same in E by lia. cbn in E. lia. }
     assert (E' : tp_ver w c' = fst (cache_find (w_cache w) k)).
     { rewrite <- E. unfold tp_ver, cs_get. cbn [w_cls]. rewrite nth_upd_other by congruence. reflexivity. }
-    destruct (C3 c' Hc' E') as [T1 T2]. split; [|assumption].
+    destruct (C3 c' Hc' E') as (T1 & T2 & T3). split; [|split; assumption].
     rewrite <- T1. unfold type_lookup. apply mro_find_ext. intros x Hx.
     unfold cd_w, cs_get. cbn [w_cls]. rewrite nth_upd_other; [reflexivity|].
-    intros ->. exact (leaf_not_in_mro x c' L Hc' N Hx).
+    intros ->. destruct L as [L|L]; [exact (leaf_not_in_mro x c' L Hc' N Hx)|].
+    specialize (T3 L). unfold static_bases in T3. rewrite forallb_forall in T3.
+    destruct (wf_mro_head c' Hc') as (r & Em & _). rewrite Em in Hx, T3. cbn [tl] in T3.
+    destruct Hx as [->|Hx]; [congruence|]. specialize (T3 x Hx). unfold is_ext in T3. rewrite Hpy in T3. discriminate.
   - exact C4.
 Qed.
 
@@ -311,18 +317,8 @@ Proof.
   destruct (os_dict o) as [[e v]|] eqn:Ed.
   - cbn [fst snd]. exists o. repeat (split; [solve [auto]|]). split; [split; assumption|].
     repeat (split; [reflexivity|]). right. unfold inst_m. rewrite Ed. reflexivity.
-  - destruct (cdictk (getc h (os_cls o))) eqn:Ek; cbn [fst snd];
-      try (exists o; repeat (split; [solve [auto]|]); split; [split; assumption|];
-           repeat (split; [reflexivity|]); left; split; [reflexivity|assumption]).
-    assert (Hd : has_dict h (os_cls o) = true) by (unfold has_dict; now rewrite Ek).
-    exists (mkos (os_cls o) (Some (None, w_next w))). split.
-    { unfold set_obj; cbn [w_objs]. apply nth_error_upd_same. eapply nth_error_lt; eassumption. }
-    split; [reflexivity|]. split; [unfold inst_m; cbn; now rewrite Ed|].
-    split; [split; [apply base_set_obj; assumption|intros E; apply cache_set_obj; auto]|].
-    split; [reflexivity|]. split; [reflexivity|]. split.
-    + rewrite view_set_obj by assumption. apply upd_same_id. unfold view. rewrite nth_error_map, Ho. cbn.
-      unfold inst_m. now rewrite Ed.
-    + right. cbn. unfold inst_m. now rewrite Ed.
+  - cbn [fst snd]. exists o. repeat (split; [solve [auto]|]). split; [split; assumption|].
+    repeat (split; [reflexivity|]). left. split; [reflexivity|assumption].
 Qed.
 
 
@@ -366,15 +362,15 @@ Proof. intros B. destruct B. constructor; assumption. Qed.
 
 Lemma slow_path_ok cached cv w k oi o o1 : Inv cv w -> (cached = true -> cv = true) ->
   nth_error (w_objs w) oi = Some o1 -> os_cls o1 = os_cls o -> inst_m o1 = inst_m o ->
-  snd (slow_path cached h w k oi o) = res_of_target (lookup h (cd_w w) (os_cls o) (inst_m o)) /\
-  Inv cv (fst (slow_path cached h w k oi o)) /\
-  w_cls (fst (slow_path cached h w k oi o)) = w_cls w /\ view (fst (slow_path cached h w k oi o)) = view w.
+  snd (slow_path cached fx h w k oi o) = res_of_target (lookup h (cd_w w) (os_cls o) (inst_m o)) /\
+  Inv cv (fst (slow_path cached fx h w k oi o)) /\
+  w_cls (fst (slow_path cached fx h w k oi o)) = w_cls w /\ view (fst (slow_path cached fx h w k oi o)) = view w.
 Proof.
   intros I Hcv Ho Ec Ei. unfold slow_path.
   destruct (lookup h (cd_w w) (os_cls o) (inst_m o)) as [k'| | |] eqn:El; cbn [fst snd res_of_target]; auto.
   destruct (Nat.eqb_spec k' k) as [->|N]; cbn [fst snd]; [|auto].
   destruct cached; cbn [fst snd]; [|auto].
-  rewrite Z.eqb_refl.
+  rewrite Z.eqb_refl. cbn [andb].
   destruct (read_obj_ver_spec cv w oi o1 I Ho) as (o2 & Ho2 & Ec2 & Ei2 & [B1 C1] & Ecl & Eca & Ev & Hver).
   destruct (read_obj_ver h w oi) as [w1 ov]. cbn [fst snd] in *.
   split; [reflexivity|]. split; [|split; assumption].
@@ -383,14 +379,21 @@ Proof.
   pose proof (b_ocls _ B1 _ _ Ho2) as Hc. rewrite Ec2, Ec in Hc.
   intros k0. unfold set_cache. cbn [w_cls w_objs w_cache w_next cache_find].
   destruct (Nat.eqb_spec k k0) as [<-|Nk]; [|apply C1].
-  cbn [fst snd]. split.
+  destruct (negb fx || static_bases h (os_cls o)) eqn:Efx; cbn [fst snd].
+  2:{ (* not cached: the entry is reset to the initial value, which no live tag equals *)
+      unfold VINIT. pose proof (b_next _ B1). split; [lia|]. split; [lia|]. split.
+      - intros c Hc' E. pose proof (b_cver _ B1 c Hc') as Q. unfold tp_ver, cs_get in E, Q. cbn [w_cls] in E. lia.
+      - intros oj o' e Hj Hd. pose proof (b_over _ B1 _ _ _ _ Hj Hd). lia. }
+  split.
   { rewrite <- (tp_ver_cls_eq w w1 Ecl). apply (b_cver _ B1). assumption. }
   split.
   { destruct Hver as [[-> _]|Hd]; [apply (b_next _ B1)|]. apply (b_over _ B1 _ _ _ _ Ho2 Hd). }
   split.
   - intros c Hc' E. rewrite <- (tp_ver_cls_eq w w1 Ecl) in E.
     assert (c = os_cls o) by (apply (b_cuniq _ B1); assumption). subst c.
-    split; [|assumption]. rewrite <- Ht. unfold type_lookup. apply mro_find_ext. intros; apply cd_w_cls_eq; assumption.
+    split; [|split; [assumption|]].
+    + rewrite <- Ht. unfold type_lookup. apply mro_find_ext. intros; apply cd_w_cls_eq; assumption.
+    + intros Efx'. rewrite Efx' in Efx. exact Efx.
   - intros oj o' e Hj Hd. destruct Hver as [[-> _]|Hd2].
     + pose proof (b_over _ B1 _ _ _ _ Hj Hd). lia.
     + assert (oj = oi) by (apply (b_ouniq _ B1 _ _ _ _ _ _ _ Hj Ho2 Hd Hd2)). subst oj.
@@ -399,9 +402,9 @@ Qed.
 
 Lemma cbody_ok cached cv w k oi o : Inv cv w -> (cached = true -> cv = true) -> no_ext_def h = true ->
   nth_error (w_objs w) oi = Some o -> vslot h (os_cls o) = Some k ->
-  snd (cbody cached h w k false oi o) = res_of_target (lookup h (cd_w w) (os_cls o) (inst_m o)) /\
-  Inv cv (fst (cbody cached h w k false oi o)) /\
-  w_cls (fst (cbody cached h w k false oi o)) = w_cls w /\ view (fst (cbody cached h w k false oi o)) = view w.
+  snd (cbody cached fx h w k false oi o) = res_of_target (lookup h (cd_w w) (os_cls o) (inst_m o)) /\
+  Inv cv (fst (cbody cached fx h w k false oi o)) /\
+  w_cls (fst (cbody cached fx h w k false oi o)) = w_cls w /\ view (fst (cbody cached fx h w k false oi o)) = view w.
 Proof.
   intros I Hcv Hnd Ho Hv. unfold cbody.
   destruct (cdecl_dict (getc h k) || prefilter h (os_cls o)) eqn:Echk.
@@ -417,7 +420,7 @@ Proof.
   - (* cache hit: C body without lookup *)
     cbn [fst snd]. split; [|split; [assumption|split; assumption]].
     destruct I as [B C]. specialize (C (Hcv eq_refl)). destruct (C k) as (_ & _ & C3 & _).
-    destruct (C3 (os_cls o) (b_ocls _ B _ _ Ho) (eq_sym Et)) as [Ht Hm].
+    destruct (C3 (os_cls o) (b_ocls _ B _ _ Ho) (eq_sym Et)) as (Ht & Hm & _).
     assert (Hi : inst_m o = None).
     { destruct Hver as [[_ Hd]|Hd].
       - rewrite <- Ei2. unfold inst_m. now rewrite Hd.
@@ -487,9 +490,9 @@ Lemma nth_nth_error {A} (l : list A) i d : (i < length l)%nat -> nth_error l i =
 Proof. revert i; induction l as [|y l IH]; intros [|i] H; cbn in *; try lia; auto. apply IH; lia. Qed.
 
 Lemma step_sim cached cv w s o : Inv cv w -> Rel w s -> (cached = true -> cv = true) ->
-  (cv = true -> leaf_op h o = true) -> no_ext_def h = true ->
-  snd (step_cy cached false h w o) = snd (step_py h s o) /\
-  Inv cv (fst (step_cy cached false h w o)) /\ Rel (fst (step_cy cached false h w o)) (fst (step_py h s o)).
+  (cv = true -> leaf_op h o = true \/ fx = true) -> no_ext_def h = true ->
+  snd (step_cy cached fx h w o) = snd (step_py h s o) /\
+  Inv cv (fst (step_cy cached fx h w o)) /\ Rel (fst (step_cy cached fx h w o)) (fst (step_py h s o)).
 Proof.
   intros I R Hcv Hleaf Hnd. pose proof I as [B C]. pose proof R as [Rc Ro].
   pose proof (cd_rel w s R) as Hcd.
@@ -538,8 +541,12 @@ Proof.
       unfold Rel. cbn [p_cls p_objs]. rewrite view_set_obj by assumption. split; [assumption|reflexivity].
     + split; [assumption|]. unfold Rel. cbn [p_cls p_objs]. split; [assumption|].
       apply upd_same_id. rewrite view_nth, Eo. unfold inst_m. now rewrite Ed.
-    + split; [assumption|]. unfold Rel. cbn [p_cls p_objs]. split; [assumption|].
-      apply upd_same_id. rewrite view_nth, Eo. unfold inst_m. now rewrite Ed.
+    + destruct (cdictk (getc h (os_cls o))) eqn:Ek.
+      1,2: (split; [assumption|]; unfold Rel; cbn [p_cls p_objs]; split; [assumption|];
+            apply upd_same_id; rewrite view_nth, Eo; unfold inst_m; now rewrite Ed).
+      assert (Ehd : has_dict h (os_cls o) = true) by (unfold has_dict; now rewrite Ek).
+      split; [split; [apply base_set_obj; assumption|intros Ecv; apply cache_set_obj; auto]|].
+      unfold Rel. cbn [p_cls p_objs]. rewrite view_set_obj by assumption. split; [assumption|reflexivity].
   - (* CallPy *)
     rewrite Ro, view_nth. destruct (nth_error (w_objs w) oi) as [o|] eqn:Eo; cbn [fst snd]; [|split; [reflexivity|split; assumption]].
     unfold dispatch_py. rewrite (lookup_ext (cd_p s) (cd_w w)) by assumption.
@@ -548,7 +555,7 @@ Proof.
     rewrite Ro, view_nth. destruct (nth_error (w_objs w) oi) as [o|] eqn:Eo; cbn [fst snd]; [|split; [reflexivity|split; assumption]].
     unfold dispatch_cy, dispatch_py. destruct (vslot h (os_cls o)) as [k|] eqn:Ev; [|split; [reflexivity|split; assumption]].
     destruct (cbody_ok cached cv w k oi o I Hcv Hnd Eo Ev) as (R1 & R2 & R3 & R4).
-    destruct (cbody cached h w k false oi o) as [w1 r]. cbn [fst snd] in *.
+    destruct (cbody cached fx h w k false oi o) as [w1 r]. cbn [fst snd] in *.
     split; [rewrite R1; f_equal; f_equal; apply lookup_ext; intros; symmetry; apply Hcd|].
     split; [assumption|]. unfold Rel. rewrite R3, R4. split; assumption.
   - (* CallVia *)
@@ -560,27 +567,27 @@ Proof.
 Qed.
 
 Theorem run_sim cached cv : forall ops w s, Inv cv w -> Rel w s -> (cached = true -> cv = true) ->
-  (cv = true -> forallb (leaf_op h) ops = true) -> no_ext_def h = true ->
-  run_cy cached false h w ops = run_py h s ops.
+  (cv = true -> forallb (leaf_op h) ops = true \/ fx = true) -> no_ext_def h = true ->
+  run_cy cached fx h w ops = run_py h s ops.
 Proof.
   induction ops as [|o ops IH]; intros w s I R Hcv Hl Hnd; [reflexivity|].
-  assert (Hl1 : cv = true -> leaf_op h o = true).
-  { intros E. specialize (Hl E). cbn in Hl. now apply andb_true_iff in Hl as [? _]. }
-  assert (Hl2 : cv = true -> forallb (leaf_op h) ops = true).
-  { intros E. specialize (Hl E). cbn in Hl. now apply andb_true_iff in Hl as [_ ?]. }
+  assert (Hl1 : cv = true -> leaf_op h o = true \/ fx = true).
+  { intros E. destruct (Hl E) as [Hl'|Hl']; [left|right; assumption]. cbn in Hl'. now apply andb_true_iff in Hl' as [? _]. }
+  assert (Hl2 : cv = true -> forallb (leaf_op h) ops = true \/ fx = true).
+  { intros E. destruct (Hl E) as [Hl'|Hl']; [left|right; assumption]. cbn in Hl'. now apply andb_true_iff in Hl' as [_ ?]. }
   destruct (step_sim cached cv w s o I R Hcv Hl1 Hnd) as (S1 & S2 & S3).
   cbn [run_cy run_py]. rewrite S1. rewrite (IH _ _ S2 S3 Hcv Hl2 Hnd). reflexivity.
 Qed.
 
 Lemma exec_inv cached cv : forall ops w s, Inv cv w -> Rel w s -> (cached = true -> cv = true) ->
-  (cv = true -> forallb (leaf_op h) ops = true) -> no_ext_def h = true ->
-  Inv cv (exec_cy cached false h w ops).
+  (cv = true -> forallb (leaf_op h) ops = true \/ fx = true) -> no_ext_def h = true ->
+  Inv cv (exec_cy cached fx h w ops).
 Proof.
   induction ops as [|o ops IH]; intros w s I R Hcv Hl Hnd; [assumption|].
-  assert (Hl1 : cv = true -> leaf_op h o = true).
-  { intros E. specialize (Hl E). cbn in Hl. now apply andb_true_iff in Hl as [? _]. }
-  assert (Hl2 : cv = true -> forallb (leaf_op h) ops = true).
-  { intros E. specialize (Hl E). cbn in Hl. now apply andb_true_iff in Hl as [_ ?]. }
+  assert (Hl1 : cv = true -> leaf_op h o = true \/ fx = true).
+  { intros E. destruct (Hl E) as [Hl'|Hl']; [left|right; assumption]. cbn in Hl'. now apply andb_true_iff in Hl' as [? _]. }
+  assert (Hl2 : cv = true -> forallb (leaf_op h) ops = true \/ fx = true).
+  { intros E. destruct (Hl E) as [Hl'|Hl']; [left|right; assumption]. cbn in Hl'. now apply andb_true_iff in Hl' as [_ ?]. }
   destruct (step_sim cached cv w s o I R Hcv Hl1 Hnd) as (S1 & S2 & S3).
   cbn [exec_cy]. apply (IH _ _ S2 S3 Hcv Hl2 Hnd).
 Qed.
@@ -591,7 +598,7 @@ Lemma inv_false w : Base w -> Inv false w.
 Proof. intros B. split; [assumption|discriminate]. Qed.
 
 Lemma slow_path_base cached w k oi o o1 : Base w -> nth_error (w_objs w) oi = Some o1 ->
-  Base (fst (slow_path cached h w k oi o)).
+  Base (fst (slow_path cached fx h w k oi o)).
 Proof.
   intros B Ho. unfold slow_path.
   destruct (lookup h (cd_w w) (os_cls o) (inst_m o)) as [k'| | |]; cbn [fst]; auto.
@@ -601,7 +608,7 @@ Proof.
 Qed.
 
 Lemma cbody_base cached w k skip oi o : Base w -> nth_error (w_objs w) oi = Some o ->
-  Base (fst (cbody cached h w k skip oi o)).
+  Base (fst (cbody cached fx h w k skip oi o)).
 Proof.
   intros B Ho. unfold cbody. destruct skip; cbn [fst]; auto.
   destruct (cdecl_dict (getc h k) || prefilter h (os_cls o)); cbn [fst]; auto.
@@ -613,7 +620,7 @@ Proof.
   eapply slow_path_base; eassumption.
 Qed.
 
-Lemma step_base cached w o : Base w -> Base (fst (step_cy cached false h w o)).
+Lemma step_base cached w o : Base w -> Base (fst (step_cy cached fx h w o)).
 Proof.
   intros B. destruct o as [c v|c|c|oi n|oi|oi|oi|c oi]; cbn [step_cy fst].
   - destruct (validc h c && is_py (getc h c)) eqn:E; [|assumption].
@@ -628,21 +635,23 @@ Proof.
     destruct (has_dict h (os_cls o)) eqn:Ehd; [|assumption]. apply base_set_obj; assumption.
   - destruct (nth_error (w_objs w) oi) as [o|] eqn:Eo; [|assumption].
     destruct (os_dict o) as [[[n|] v]|] eqn:Ed; try assumption.
-    apply base_set_obj; try assumption.
-    destruct (has_dict h (os_cls o)) eqn:E; [reflexivity|]. rewrite (b_nodict _ B _ _ Eo E) in Ed. discriminate.
+    + apply base_set_obj; try assumption.
+      destruct (has_dict h (os_cls o)) eqn:E; [reflexivity|]. rewrite (b_nodict _ B _ _ Eo E) in Ed. discriminate.
+    + destruct (cdictk (getc h (os_cls o))) eqn:Ek; try assumption.
+      apply base_set_obj; try assumption. unfold has_dict; now rewrite Ek.
   - destruct (nth_error (w_objs w) oi) as [o|] eqn:Eo; cbn [fst]; [|assumption].
     destruct (lookup h (cd_w w) (os_cls o) (inst_m o)); cbn [cbody fst]; assumption.
   - destruct (nth_error (w_objs w) oi) as [o|] eqn:Eo; cbn [fst]; [|assumption].
     unfold dispatch_cy. destruct (vslot h (os_cls o)) as [k|]; cbn [fst]; [|assumption].
     pose proof (cbody_base cached w k false oi o B Eo) as H.
-    destruct (cbody cached h w k false oi o) as [w1 r]. exact H.
+    destruct (cbody cached fx h w k false oi o) as [w1 r]. exact H.
   - destruct (nth_error (w_objs w) oi) as [o|] eqn:Eo; cbn [fst]; [|assumption].
     destruct (validc h c); cbn [fst]; [|assumption].
     destruct (type_lookup h (cd_w w) c) as [[n|k]|]; cbn [fst]; try assumption.
     destruct (in_mro h k (os_cls o)); cbn [cbody fst]; assumption.
 Qed.
 
-Lemma exec_base cached : forall ops w, Base w -> Base (exec_cy cached false h w ops).
+Lemma exec_base cached : forall ops w, Base w -> Base (exec_cy cached fx h w ops).
 Proof. induction ops as [|o ops IH]; intros w B; [assumption|]. cbn [exec_cy]. apply IH, step_base, B. Qed.
 
 Lemma rel_w0 : Rel (w0 h) (p0 h).
@@ -652,10 +661,10 @@ End Hier.
 
 (* ---------- main theorems ---------- *)
 (* cache compiled out (CYTHON_USE_DICT_VERSIONS = 0, the default on CPython >= 3.12) *)
-Theorem dispatch_eq_nocache h ops : wf_hier h = true -> no_ext_def h = true ->
-  run_cy false false h (w0 h) ops = run_py h (p0 h) ops.
+Theorem dispatch_eq_nocache h fx ops : wf_hier h = true -> no_ext_def h = true ->
+  run_cy false fx h (w0 h) ops = run_py h (p0 h) ops.
 Proof.
-  intros Hwf Hnd. apply (run_sim h Hwf false false); auto; try discriminate.
+  intros Hwf Hnd. apply (run_sim h Hwf fx false false); auto; try discriminate.
   - split; [apply base_w0; assumption|discriminate].
   - apply rel_w0.
 Qed.
@@ -665,7 +674,16 @@ Theorem dispatch_eq_cached_leaf h ops : wf_hier h = true -> no_ext_def h = true 
   forallb (leaf_op h) ops = true ->
   run_cy true false h (w0 h) ops = run_py h (p0 h) ops.
 Proof.
-  intros Hwf Hnd Hl. apply (run_sim h Hwf true true); auto.
+  intros Hwf Hnd Hl. apply (run_sim h Hwf false true true); auto.
+  - split; [apply base_w0; assumption|intros _; apply cache_w0; assumption].
+  - apply rel_w0.
+Qed.
+
+(* repaired variant: all histories *)
+Theorem dispatch_eq_cached_fx h ops : wf_hier h = true -> no_ext_def h = true ->
+  run_cy true true h (w0 h) ops = run_py h (p0 h) ops.
+Proof.
+  intros Hwf Hnd. apply (run_sim h Hwf true true true); auto.
   - split; [apply base_w0; assumption|intros _; apply cache_w0; assumption].
   - apply rel_w0.
 Qed.
@@ -676,12 +694,12 @@ Theorem cached_eq_uncached_leaf h ops : wf_hier h = true -> no_ext_def h = true 
 Proof. intros. rewrite dispatch_eq_cached_leaf, dispatch_eq_nocache; auto. Qed.
 
 (* prefilter soundness in every reachable state, both builds *)
-Theorem prefilter_sound h cached ops oi o k : wf_hier h = true -> no_ext_def h = true ->
-  nth_error (w_objs (exec_cy cached false h (w0 h) ops)) oi = Some o ->
+Theorem prefilter_sound h cached fx ops oi o k : wf_hier h = true -> no_ext_def h = true ->
+  nth_error (w_objs (exec_cy cached fx h (w0 h) ops)) oi = Some o ->
   prefilter h (os_cls o) = false -> vslot h (os_cls o) = Some k ->
-  lookup h (cd_w (exec_cy cached false h (w0 h) ops)) (os_cls o) (inst_m o) = TWrap k.
+  lookup h (cd_w (exec_cy cached fx h (w0 h) ops)) (os_cls o) (inst_m o) = TWrap k.
 Proof.
   intros Hwf Hnd Ho Hp Hv.
-  assert (B : Base h (exec_cy cached false h (w0 h) ops)) by (apply exec_base; [assumption|apply base_w0; assumption]).
+  assert (B : Base h (exec_cy cached fx h (w0 h) ops)) by (apply exec_base; [assumption|apply base_w0; assumption]).
   apply (prefilter_sound_w h Hwf _ oi o k B Hnd Ho Hp Hv).
 Qed.
